@@ -20,7 +20,7 @@ RULE = ("positive part: claims = generated JSON objects (str keys; unicode, nest
         "and JWE transport (registry=JWERegistry; 17 algs x 8 encs); allow-list given as registry, as algorithms= or as both; key as key / key set (kid recorded) / callable / plain key for encoding and a single-key set for decoding; process runs "
         "with TZ=Asia/Tokyo so that local-time conversions differ from UTC. Oracle: decode(encode(h, c)).claims equals the JSON value of "
         "c with datetimes replaced by calendar.timegm(utctimetuple) (typed equality), header = {typ: JWT} + h (+kid, +epk/iv/tag/p2s/"
-        "p2c), caller's header object unchanged. negative part: validly signed (reference) or encrypted payloads that are not JSON or "
+        "p2c), caller's header object unchanged; also with caller-supplied JSON encoder / decoder classes (a claim of a type only that encoder knows). negative part: validly signed (reference) or encrypted payloads that are not JSON or "
         "not a JSON object must raise InvalidPayloadError. non-trivial: claims with non-ASCII, nesting>=2, float, big int or datetime, "
         "or a non-object payload; distinct = digest of (claims shape, transport, alg, key mode).")
 ASSUMPTIONS = ["naive datetimes are interpreted as UTC (library convention: calendar.timegm(dt.utctimetuple()))",
